@@ -198,7 +198,7 @@ func (dl *datalog) del(key []byte) error {
 }
 
 func (dl *datalog) writeRecord(data []byte, rt recordType) (uint16, uint32, error) {
-	if dl.curSeg.meta.Full || dl.curSeg.size+int64(len(data)) > int64(dl.opts.maxSegmentSize) {
+	if dl.curSeg.meta.Full || (!dl.curSeg.empty() && dl.curSeg.size+int64(len(data)) > int64(dl.opts.maxSegmentSize)) {
 		// Current segment is full, create a new one.
 		dl.curSeg.meta.Full = true
 		// Sync doesn't reach sealed segments, make the segment durable before moving on.
